@@ -263,3 +263,92 @@ pub fn op_stage<'src>(
 pub fn panic_to_failure(stage: &str, p: &PanicInfo, detail: &Value) -> Failure {
     panic_failure(stage, p, detail.clone())
 }
+
+// ---------------------------------------------------------------------------
+// generate stage
+
+use nitrogql_printer::{
+    print_types_for_operation_document, OperationTypePrinterOptions, ResolverTypePrinter, ResolverTypePrinterOptions,
+    SchemaTypePrinter, SchemaTypePrinterOptions,
+};
+use sourcemap_writer::{SourceWriter, SourceWriterBuffers};
+
+pub struct SchemaGenConfig {
+    pub scalar_types: HashMap<String, nitrogql_config_file::ScalarTypeConfig>,
+    pub allow_undefined_as_optional_input: bool,
+    pub emit_schema_runtime: bool,
+}
+
+impl Default for SchemaGenConfig {
+    fn default() -> Self {
+        SchemaGenConfig { scalar_types: HashMap::new(), allow_undefined_as_optional_input: true, emit_schema_runtime: false }
+    }
+}
+
+/// schema .d.ts exactly as cli/src/generate.rs builds it (file index mapper = identity for
+/// schema files). Returns Err(message) for a printer error value.
+pub fn gen_schema_dts(
+    doc: &TypeSystemDocument,
+    cfg: &SchemaGenConfig,
+    file_index_mapper: Option<Vec<usize>>,
+    detail: &Value,
+) -> Result<Result<SourceWriterBuffers, String>, Failure> {
+    guard(|| {
+        let mut options = SchemaTypePrinterOptions::default();
+        options.emit_schema_runtime = cfg.emit_schema_runtime;
+        options.input_nullable_field_is_optional = cfg.allow_undefined_as_optional_input;
+        options.scalar_types.extend(cfg.scalar_types.iter().map(|(k, v)| (k.clone(), v.clone())));
+        let mut writer = SourceWriter::new();
+        if let Some(m) = file_index_mapper {
+            writer.set_file_index_mapper(m);
+        }
+        let mut printer = SchemaTypePrinter::new(options, &mut writer);
+        match printer.print_document(doc) {
+            Ok(()) => Ok(writer.into_buffers()),
+            Err(e) => Err(format!("{e:?}")),
+        }
+    })
+    .map_err(|p| panic_failure("SchemaTypePrinter", &p, detail.clone()))
+}
+
+pub fn gen_resolvers_dts(
+    doc: &TypeSystemDocument,
+    schema_source: &str,
+    file_index_mapper: Option<Vec<usize>>,
+    detail: &Value,
+) -> Result<Result<SourceWriterBuffers, String>, Failure> {
+    guard(|| {
+        let mut options = ResolverTypePrinterOptions::default();
+        options.schema_source = schema_source.to_string();
+        let mut writer = SourceWriter::new();
+        if let Some(m) = file_index_mapper {
+            writer.set_file_index_mapper(m);
+        }
+        let mut printer = ResolverTypePrinter::new(options, &mut writer);
+        let plugins: Vec<nitrogql_plugin::Plugin> = vec![];
+        match printer.print_document(doc, &plugins) {
+            Ok(()) => Ok(writer.into_buffers()),
+            Err(e) => Err(format!("{e:?}")),
+        }
+    })
+    .map_err(|p| panic_failure("ResolverTypePrinter", &p, detail.clone()))
+}
+
+pub fn gen_operation_dts(
+    schema_doc: &TypeSystemDocument,
+    op: &OperationDocument,
+    options: OperationTypePrinterOptions,
+    file_index_mapper: Option<Vec<usize>>,
+    detail: &Value,
+) -> Result<SourceWriterBuffers, Failure> {
+    guard(|| {
+        let schema = ast_to_type_system(schema_doc);
+        let mut writer = SourceWriter::new();
+        if let Some(m) = file_index_mapper {
+            writer.set_file_index_mapper(m);
+        }
+        print_types_for_operation_document(options, &schema, op, &mut writer);
+        writer.into_buffers()
+    })
+    .map_err(|p| panic_failure("print_types_for_operation_document", &p, detail.clone()))
+}
